@@ -144,6 +144,11 @@ func genC10(g *Gen) {
 		func(f int) Step { return Step{Op: "Copy", Recv: f, Dst: toBS(""), Src: toBS("A")} },
 		func(f int) Step { return Step{Op: "Copy", Recv: f, Dst: toBS("'z'"), Src: toBS("A")} },
 		func(f int) Step { return Step{Op: "Distinct", Recv: f, Cols: bsList([]string{"nosuch"})} },
+		func(f int) Step { return Step{Op: "TypedView", Recv: f, Dst: toBS("A"), Fl: "float"} },
+		func(f int) Step { return Step{Op: "TypedView", Recv: f, Dst: toBS("nosuch"), Fl: "int"} },
+		func(f int) Step { return Step{Op: "TypedView", Recv: f, Dst: toBS("E"), Fl: "string"} },
+		func(f int) Step { return Step{Op: "TypedView", Recv: f, Dst: toBS("S"), Fl: "enum"} },
+		func(f int) Step { return Step{Op: "TypedView", Recv: f, Dst: toBS("A"), Fl: "int"} },
 		func(f int) Step { return Step{Op: "Rolling", Recv: f, Dst: toBS("Z"), Src: toBS("A"), A: -1} },
 		func(f int) Step { return Step{Op: "Rolling", Recv: f, Dst: toBS("Z"), Src: toBS("A"), Fl: "middle"} },
 		func(f int) Step { return Step{Op: "Rolling", Recv: f, Dst: toBS("Z"), Src: toBS("A"), A: 3, B: 1} },
